@@ -100,6 +100,11 @@ func (e *writerExec) Body() {
 					return
 				}
 				e.cases++
+				if e.cases%20000 == 0 {
+					for k := 0; k < 16; k++ {
+						vrt.Yield() // long enumeration inside one execution: tell the watchdog we are alive
+					}
+				}
 				e.example = fmt.Sprintf("size %d ops %v", size, seq)
 			}
 			if len(seq) == e.depth {
